@@ -65,7 +65,7 @@ func Headers(args any) {
 	}
 	switch e := eval.Current().(type) {
 	case *expr.GRPCResponseExpr:
-		attr := &expr.AttributeExpr{}
+		attr := &expr.AttributeExpr{Type: &expr.Object{}}
 		if eval.Execute(fn, attr) {
 			e.Headers = expr.NewMappedAttributeExpr(attr)
 		}
